@@ -130,6 +130,8 @@ def _case():
         "timestamp": st.one_of(st.none(), st.integers(946684800, 4102444800)),
         # the same instant handed over as a naive local time, as a UTC-aware or as an offset-aware datetime, with or without a fraction
         "ts_form": st.sampled_from(["naive", "naive", "utc", "offset"]), "ts_off_min": st.integers(-720, 840),
+        # the local time zone of the machine that builds the file (a naive datetime means local time)
+        "ts_zone": st.sampled_from([None, None, "IST-5:30", "HST10", "LINT-14", "NPT-5:45"]),
         "ts_us": st.one_of(st.just(0), st.integers(1, 999999)),
         "padding": st.sampled_from(["none", "zero", "given"]), "padding_bytes": st.binary(min_size=8, max_size=8),
         "rsa_bits": st.sampled_from([2048, 2048, 3072, 4096]), "chain": st.lists(st.integers(0, 7), min_size=1, max_size=3, unique=True),
@@ -301,6 +303,27 @@ def _timestamp(case):
 
 
 def run_case(case, o: Oracle) -> None:
+    """The case's local time zone (a POSIX TZ string without daylight saving; none: the machine's) is in force while it runs."""
+    import time
+
+    zone = case.get("ts_zone")
+    if not zone:
+        return _run_case(case, o)
+    before = os.environ.get("TZ")
+    os.environ["TZ"] = zone
+    time.tzset()
+    try:
+        o.label("local_zone:" + zone)
+        return _run_case(case, o)
+    finally:
+        if before is None:
+            os.environ.pop("TZ", None)
+        else:
+            os.environ["TZ"] = before
+        time.tzset()
+
+
+def _run_case(case, o: Oracle) -> None:
     import datetime
 
     from spsdk.sbfile.sb2.images import BootImageV20, BootImageV21, SBV2xAdvancedParams
